@@ -104,6 +104,9 @@ pub enum Op {
     /// inputs: `ns` scalars then `nb` points; `bounds` = msm_by_bounded_scalars
     Msm { ns: usize, nb: usize, terms: Vec<(SRef, BRef)>, bounds: Option<Vec<usize>> },
     MulByConst(S),
+    /// `msm(terms)` followed, in the same circuit, by `msm(terms[0])`: two results. (The foreign
+    /// chip loads fresh dynamic lookup tables per call; see the `dynamic-tables` group.)
+    MsmTwice { ns: usize, nb: usize, terms: Vec<(SRef, BRef)> },
     // --- Jubjub only
     ScalarFromBytes(usize),
     ScalarFromNative,
@@ -181,7 +184,7 @@ impl Op {
             FromCoords => vec![Ty::Co, Ty::Co],
             Add | IsEqual | IsNotEqual | AssertEqual | AssertNotEqual | SubgroupCheckChosenRoot => vec![Ty::Pt, Ty::Pt],
             Select | CondSwap | CondAssertEqual => vec![Ty::Bit, Ty::Pt, Ty::Pt],
-            Msm { ns, nb, .. } => {
+            Msm { ns, nb, .. } | MsmTwice { ns, nb, .. } => {
                 let mut v = vec![Ty::Sc(JUB_SCALAR_BITS); *ns];
                 v.extend(vec![Ty::Pt; *nb]);
                 v
@@ -205,7 +208,7 @@ impl Op {
             AssignFixed(_) | FromCoords | Add | Double | Negate | Select | Msm { .. } | MulByConst(_) | MulBytes(_) | MulNative | HashToCurve(_) => vec![Ty::Pt],
             Coords => vec![Ty::Co, Ty::Co],
             IsEqual | IsNotEqual | IsEqualToFixed(_) | IsZero => vec![Ty::Bit],
-            CondSwap => vec![Ty::Pt, Ty::Pt],
+            CondSwap | MsmTwice { .. } => vec![Ty::Pt, Ty::Pt],
             ScalarFromBytes(n) => vec![Ty::Sc(8 * n)],
             ScalarFromNative => vec![Ty::Sc(F::NUM_BITS_USIZE)],
         }
@@ -381,6 +384,24 @@ fn reference_inner(cv: Cv, op: &Op, ins: &[D]) -> Option<Vec<D>> {
             Some(vec![dpt(acc)])
         }
         MulByConst(k) => Some(vec![dpt(pt(0).mul_int(&k.v))]),
+        MsmTwice { ns, terms, .. } => {
+            let term = |(s, b): &(SRef, BRef)| {
+                let sv = match s {
+                    SRef::In(i) => ins[*i].int(),
+                    SRef::Fixed(c) => c.v.clone(),
+                };
+                let bv = match b {
+                    BRef::In(j) => *ins[ns + *j].pt(),
+                    BRef::Fixed(p) => p.rp,
+                };
+                bv.mul_int(&sv)
+            };
+            let mut acc = RP::identity(cv);
+            for t in terms.iter() {
+                acc = acc.add(&term(t));
+            }
+            Some(vec![dpt(acc), dpt(term(&terms[0]))])
+        }
         ScalarFromBytes(n) => {
             let b: Vec<u8> = ins[..*n].iter().map(|d| if let D::Byte(y) = d { *y } else { unreachable!() }).collect();
             Some(vec![D::Sc(BigUint::from_bytes_le(&b))])
@@ -704,6 +725,25 @@ macro_rules! gen_synth {
                     outs.push(A::Pt(r));
                 }
                 Op::MulByConst(k) => outs.push(A::Pt(chip.mul_by_constant(l, $sc_const(&k.v), &pt(0))?)),
+                Op::MsmTwice { ns, terms, .. } => {
+                    let mut scalars: Vec<$ScT> = vec![];
+                    let mut bases: Vec<$PtT> = vec![];
+                    for (s, b) in terms {
+                        scalars.push(match s {
+                            SRef::In(i) => match &a[*i] {
+                                A::Sc(s) => s.clone(),
+                                _ => unreachable!(),
+                            },
+                            SRef::Fixed(c) => fixed_sc(std, l, &c.v)?,
+                        });
+                        bases.push(match b {
+                            BRef::In(j) => pt(ns + *j),
+                            BRef::Fixed(p) => AssignmentInstructions::<F, $PtT>::assign_fixed(chip, l, $pt_val(&p.rp))?,
+                        });
+                    }
+                    outs.push(A::Pt(chip.msm(l, &scalars, &bases)?));
+                    outs.push(A::Pt(chip.msm(l, &scalars[..1], &bases[..1])?));
+                }
                 _ => unreachable!("curve-specific operation on the wrong curve"),
             }
             for x in &outs {
